@@ -120,7 +120,7 @@ def run(ck):
     exe = vlib.build_harness("c12_playbuffer", ["c12_playbuffer.c"])
     quick = ck.tier == "quick"
     nshards = 16
-    per = 40 if quick else 600
+    per = 40 if quick else 2500
     maxhex = 24000 if quick else 60000
     mods = pick_modules(ck, 40 if quick else 250)
     # frame size must follow the tempo: modules that change tempo on almost every frame (listed several times
